@@ -7,9 +7,11 @@
    descriptor, every reference list, times, parameters and the times and payloads of the blocks stay, the documents
    stay, protected IDs stay - whatever their outcome; and the numbering loop of programmes, contents and objects
    hands out next, next+1, ... in document order to exactly the elements outside the reserved range.
-   Partial (suffix _partial): the composition of these steps for pack, stream, channel, track formats and track UIDs,
-   uniqueness after the call and idempotence are decided by the differential run only. *)
-From Adm Require Import Heap.Exec Heap.More Heap.Frame Heap.Reassign.
+   The whole of reassignIds is proved to change IDs only, for every outcome (C14_reassign_changes_ids_only: Hoare-style
+   traversal of the complete function in Heap/ReassignFull.v, including the stream / channel / track format section
+   and the track UID section).  Partial (suffix _partial): which numbers pack, stream, channel, track formats and track
+   UIDs receive, uniqueness after the call and idempotence are decided by the differential run only. *)
+From Adm Require Import Heap.Exec Heap.More Heap.Frame Heap.Reassign Heap.ReassignFull Heap.WF.
 Local Open Scope N_scope.
 
 Theorem C14_set_id_changes_ids_only : forall h i s s' r e, get_elem s h = Some e ->
@@ -68,3 +70,17 @@ Theorem C14_issued_numbers_are_dense_and_ordered : forall skip hs n,
   map fst (issued skip hs n) = filter (fun h => negb (skip h)) hs.
 Proof. exact (fun skip hs n => conj (issued_dense skip hs n) (issued_order skip hs n)). Qed.
 Print Assumptions C14_issued_numbers_are_dense_and_ordered.
+
+(* the complete reassignIds, every outcome: only IDs (and block IDs) change; reserved-range IDs and silent track UIDs,
+   all parameters, all references, parents, membership and the documents are as before *)
+Theorem C14_reassign_changes_ids_only : forall d s s' r,
+  (forall x k h, get_doc s d = Some x -> In h (members x k) -> kindof s h = Some k) ->
+  (forall h rk h', In h' (refs s h rk) -> kindof s h' = Some (dst_kind rk)) ->
+  reassign_ids d s = (s', r) -> ids_only s s'.
+Proof. exact reassign_ids_ids_only. Qed.
+Print Assumptions C14_reassign_changes_ids_only.
+
+(* its two premises hold in every well-formed state (C03) *)
+Theorem C14_reassign_on_well_formed_states : forall d s s' r, WF s -> reassign_ids d s = (s', r) -> ids_only s s'.
+Proof. exact reassign_ids_wf. Qed.
+Print Assumptions C14_reassign_on_well_formed_states.
